@@ -233,14 +233,55 @@ func genHist(r *rng.R, maxLen int) Hist {
 	return h
 }
 
-var deriveKinds = []string{"nonce", "nonce", "nonce", "children", "clear", "value", "cancel"}
+var deriveKinds = []string{"nonce", "nonce", "nonce", "children", "clear", "value", "cancel", "mw", "mw", "mw"}
 
 func genDerive(r *rng.R) Op {
 	o := Op{Tag: "D", Text: rng.Pick(r, deriveKinds)}
-	if o.Text == "nonce" {
+	switch o.Text {
+	case "nonce":
 		o.Nonce = rng.Pick(r, []string{"n1", "abc123", "Zz-9_", ""})
+	case "mw":
+		// a further CSS middleware the rendering context passes through, holding any classes (component classes
+		// mostly; it may hold none, or ones an earlier middleware holds as well)
+		for i := r.Intn(4); i > 0; i-- {
+			o.Classes = append(o.Classes, genClass(r))
+		}
 	}
 	return o
+}
+
+// mwSituations names, for the evidence histogram, where each further middleware of a history is reached.
+func mwSituations(h Hist) []string {
+	var out []string
+	used := map[int]bool{}
+	nonce := map[int]bool{}
+	for _, co := range h.Ops {
+		if co.Op.Tag != "D" {
+			used[co.Ctx] = true
+			continue
+		}
+		switch co.Op.Text {
+		case "nonce":
+			nonce[co.Ctx] = true
+		case "mw":
+			s := "middleware over an existing context: "
+			if h.Cfgs[co.Ctx].MW {
+				s += "stacked on the request's middleware"
+			} else {
+				s += "below a plain initialised context"
+			}
+			if used[co.Ctx] {
+				s += ", after renders"
+			} else {
+				s += ", before any render"
+			}
+			if nonce[co.Ctx] || h.Cfgs[co.Ctx].Nonce != "" {
+				s += ", after WithNonce"
+			}
+			out = append(out, s)
+		}
+	}
+	return out
 }
 
 // withDerivations inserts context derivations at arbitrary points - in particular before the first use of a
